@@ -253,7 +253,23 @@ def norm_ty(s):
 
     def drop_mod(m):
         seg = m.group(1)
-        return m.group(0) if seg in PRIMS else ""
+        if seg in PRIMS:
+            return m.group(0)
+        rest = m.string[m.end():]
+        if rest.startswith("<impl"):
+            # `slice::<impl [T]>::iter` is a module path; `extend::<impl IntoIterator<..>>` is a method
+            # with an impl-trait type argument: keep the method name
+            depth = 0
+            for k, ch in enumerate(rest):
+                if ch == "<":
+                    depth += 1
+                elif ch == ">" and not (k > 0 and rest[k - 1] == "-"):
+                    depth -= 1
+                    if depth == 0:
+                        if not rest[k + 1:].startswith("::"):
+                            return m.group(0)
+                        break
+        return ""
 
     s = re.sub(r"\b([a-z_][a-z0-9_]*)::(?=[A-Za-z_{]|<impl)", drop_mod, s)
     s = re.sub(r"&\s+", "&", s)
@@ -491,7 +507,9 @@ class Program:
         m = re.match(r"^<(.+) as (.+?)>::(\w+)(?:::<.*>)?$", c, re.S)
         if m:
             sty, tr, meth = norm_ty(m.group(1)), norm_ty(m.group(2)), m.group(3)
-            cands = self.trait_impls.get((base_ty(sty.lstrip("&").replace("mut ", "")), base_ty(tr), meth), [])
+            cands = self.trait_impls.get((base_ty(sty), base_ty(tr), meth), [])
+            if not cands:
+                cands = self.trait_impls.get((base_ty(sty.lstrip("&").replace("mut ", "")), base_ty(tr), meth), [])
             X = self.types.expand_aliases
             trq, styq = X(tr).replace(" ", ""), X(sty).replace(" ", "")
 
@@ -548,9 +566,10 @@ class Event:
 
 
 class Frame:
-    def __init__(self, fid, func):
+    def __init__(self, fid, func, subst=None):
         self.fid = fid
         self.func = func
+        self.subst = subst or {}
 
 
 class Executor:
@@ -1069,11 +1088,11 @@ class Executor:
         return VStruct("::".join(segs) if len(segs) > 1 else (dty or sn), vals, self.new_vid())
 
     # ---- running
-    def run_function(self, func, args, depth=0):
+    def run_function(self, func, args, depth=0, subst=None):
         if depth > self.cfg.get("max_call_depth", 12):
             raise Unsupported("call depth")
         self.nframes += 1
-        frame = Frame(self.nframes, func)
+        frame = Frame(self.nframes, func, subst)
         self.used["inlined"].add(func.name)
         for (idx, _), a in zip(func.params, args):
             self.mem[self.local_key(frame, idx)] = a
@@ -1088,6 +1107,7 @@ class Executor:
                 raise PathEnd("bound", f"loop bound at {func.short} bb{bb}")
             block = func.blocks[bb]
             for s in block.stmts:
+                self.where = (func.short, bb, s)
                 st = self.P_parse_stmt(s)
                 if st.kind == "nop":
                     continue
@@ -1102,6 +1122,7 @@ class Executor:
                     v.discr = st.idx
                 else:
                     raise Unsupported("stmt " + st.kind)
+            self.where = (func.short, bb, block.term)
             t = self.P_parse_term(block.term)
             k = t.kind
             if k == "goto":
@@ -1189,6 +1210,9 @@ class Executor:
     def do_call(self, frame, t, depth):
         import models
         callee = t.callee
+        # inside a generic function: replace its type parameters by the caller's type arguments
+        for g, a in frame.subst.items():
+            callee = re.sub(rf"\b{g}\b", a, callee)
         args = [self.operand(frame, a) for a in t.args]
         ret_ty = None
         if not t.dest.proj:
@@ -1204,12 +1228,13 @@ class Executor:
                         return r
         # 3. inline rscel functions that the target asked for
         f = None if callee.startswith(("move ", "copy ")) else self.P.resolve(callee)
+        sub = self.generic_subst(f, callee) if f is not None else None
         if f is not None and any(re.search(p, ncallee) or re.search(p, f.name) for p in self.cfg.get("inline", [])):
-            return self.run_function(f, args, depth + 1)
+            return self.run_function(f, args, depth + 1, sub)
         # rscel functions the target did not single out: executed from their MIR as well (so that a
         # refactoring into helper functions is followed), unless the target keeps them uninterpreted
         if f is not None and self.cfg.get("inline_default") and not any(re.search(p, ncallee) for p in self.cfg.get("keep_uninterpreted", [])):
-            return self.run_function(f, args, depth + 1)
+            return self.run_function(f, args, depth + 1, sub)
         # 4. havoc - only for calls that cannot write through their arguments; anything else is an
         #    unmodelled effect and makes the path (and the target) inconclusive rather than wrong
         for a in args:
@@ -1232,6 +1257,22 @@ class Executor:
         else:
             self_arg = cv
         return self.run_function(f, [self_arg] + list(args), depth)
+
+    def generic_subst(self, f, callee):
+        """{type parameter: type argument} for a call `path::<A1, A2>(..)` of a generic function: the
+        parameters are the single-capital-letter type names of the callee's signature, in order
+        of first appearance (closure-typed parameters, printed as F, are matched by value instead)"""
+        m = re.search(r"::<([^()]*)>$", callee.strip())
+        if not m:
+            return None
+        targs = [norm_ty(a) for a in mp.split_top(m.group(1))]
+        names = []
+        for g in re.findall(r"\b([A-Z])\b", f.header):
+            if g not in names:
+                names.append(g)
+        if not names:
+            return None
+        return {g: a for g, a in zip(names, targs) if not a.startswith("{closure")}
 
     def havoc(self, name, args, ret_ty, extra=None):
         self.used["havocked"].add(name)
@@ -1273,8 +1314,10 @@ def explore(program, config, entry, make_args, on_path, max_paths=20000, time_bu
         except PathEnd as e:
             res = PathResult(ex, e.kind, None, e.msg)
         except Unsupported as e:
-            res = PathResult(ex, "unsupported", None, str(e))
-            unsupported_msgs.append(str(e))
+            w = getattr(ex, "where", None)
+            msg = str(e) + (f" [in {w[0]} bb{w[1]}: {w[2][:140]}]" if w else "")
+            res = PathResult(ex, "unsupported", None, msg)
+            unsupported_msgs.append(msg)
         work.extend(ex.new_alternatives)
         stats["paths"] += 1
         stats[{"return": "returned", "panic": "panics", "bound": "bound", "unsupported": "unsupported", "infeasible": "infeasible"}[res.outcome]] += 1
